@@ -113,7 +113,8 @@ class _RedisConsumer(ConsumerT):
                 await asyncio.sleep(self.POLLING_WAIT)
                 continue
             key, _, params = msg
-            if params.is_overdue:
+            # dead and delayed categories are for inspection: overdue messages stay readable
+            if params.is_overdue and self.category == MessageCategory.NORMAL:
                 await self.broker.nack(key)
                 continue
             return msg
